@@ -1004,7 +1004,11 @@ def _r9_eq_closed(repo, rep):
                     continue
                 texts = {(norm(e), pol) for e, pol in p.facts}
                 if ('self is %s' % oth, True) in texts or \
-                        ('%s is self' % oth, True) in texts:
+                        ('%s is self' % oth, True) in texts or \
+                        ('self is not %s' % oth, False) in texts or \
+                        ('%s is not self' % oth, False) in texts:
+                    continue
+                if ('not ' + want, False) in texts:
                     continue
                 if (want, True) in texts:
                     continue
